@@ -1,0 +1,178 @@
+//go:build verif
+
+package ring
+
+// Verification hooks for properties C08/C09 (build tag `verif`, add-only, no behaviour change).
+//
+// They expose the CAS-issuing handlers of the two lifecyclers as event entry points that the external
+// correspondence harness (/verif/harness) fires in an order of its own choosing, WITHOUT running the
+// `select` loops / timers of Lifecycler.loop, BasicLifecycler.starting/running/stopping. One exported
+// wrapper = one handler of the actor goroutine. Where the real code keeps a few lines of glue inside
+// the `select` case body (not in a method), the wrapper transcribes exactly these lines and says so.
+
+import (
+	"context"
+	"time"
+
+	"github.com/grafana/dskit/services"
+)
+
+// ---------------------------------------------------------------- Lifecycler (full)
+
+// VerifInitRing is the first thing loop() does.
+func (i *Lifecycler) VerifInitRing(ctx context.Context) error { return i.initRing(ctx) }
+
+// VerifJoinTimer transcribes the body of `case <-autoJoinAfter:` of loop() (glue: state guard and
+// the choice of the target state by ObservePeriod); the work is done by autoJoin.
+func (i *Lifecycler) VerifJoinTimer(ctx context.Context) error {
+	if i.GetState() == PENDING {
+		if i.cfg.ObservePeriod > 0 {
+			return i.autoJoin(ctx, JOINING)
+		}
+		return i.autoJoin(ctx, ACTIVE)
+	}
+	return nil
+}
+
+// VerifVerifyTokens is the first half of `case <-observeChan:`; on true the loop calls changeState(ACTIVE).
+func (i *Lifecycler) VerifVerifyTokens(ctx context.Context) bool { return i.verifyTokens(ctx) }
+
+// VerifHeartbeat is `case <-heartbeatTickerChan:` (without the metric).
+func (i *Lifecycler) VerifHeartbeat(ctx context.Context) error { return i.updateConsul(ctx) }
+
+// VerifChangeState is changeState as called from loop()/stopping().
+func (i *Lifecycler) VerifChangeState(ctx context.Context, s InstanceState) error {
+	return i.changeState(ctx, s)
+}
+
+// VerifUnregister is unregister as called from stopping().
+func (i *Lifecycler) VerifUnregister(ctx context.Context) error { return i.unregister(ctx) }
+
+// VerifStartActor replaces the service of a NOT started lifecycler by one whose running function only
+// serves actorChan (`case f := <-i.actorChan: f()` of loop()), so that the exported ChangeState,
+// ChangeReadOnlyState and ClaimTokensFor run their real closures. No initRing, timers or stopping.
+// A panic raised inside a closure (crash injection by the harness' kv wrapper) is reported on the
+// returned channel instead of killing the process; the caller of the exported method then stays blocked.
+func (i *Lifecycler) VerifStartActor() (crashed <-chan interface{}, stop func()) {
+	ch := make(chan interface{}, 4)
+	i.BasicService = services.NewBasicService(nil, func(ctx context.Context) error {
+		for {
+			select {
+			case f := <-i.actorChan:
+				func() {
+					defer func() {
+						if r := recover(); r != nil {
+							ch <- r
+						}
+					}()
+					f()
+				}()
+			case <-ctx.Done():
+				return nil
+			}
+		}
+	}, nil)
+	_ = services.StartAndAwaitRunning(context.Background(), i.BasicService)
+	return ch, func() { _ = services.StopAndAwaitTerminated(context.Background(), i.BasicService) }
+}
+
+// VerifSetState forces the remembered state (used only to read out changeState's transition table).
+func (i *Lifecycler) VerifSetState(s InstanceState) { i.setState(s) }
+
+// VerifLocal returns the lifecycler's remembered self.
+func (i *Lifecycler) VerifLocal() (state InstanceState, tokens Tokens, registeredAt time.Time, readOnly bool, readOnlyUpdated time.Time, ready bool, readySince time.Time) {
+	i.stateMtx.RLock()
+	state, tokens, registeredAt, readOnly, readOnlyUpdated = i.state, append(Tokens(nil), i.tokens...), i.registeredAt, i.readOnly, i.readOnlyLastUpdated
+	i.stateMtx.RUnlock()
+	i.readyLock.Lock()
+	ready, readySince = i.ready, i.readySince
+	i.readyLock.Unlock()
+	return
+}
+
+// VerifShiftTime moves every remembered point in time back by d (the harness' virtual clock: advancing
+// the clock by d is the same as ageing every stored timestamp by d). Zero times stay zero.
+func (i *Lifecycler) VerifShiftTime(d time.Duration) {
+	sh := func(t time.Time) time.Time {
+		if t.IsZero() {
+			return t
+		}
+		return t.Add(-d)
+	}
+	i.stateMtx.Lock()
+	i.registeredAt, i.readOnlyLastUpdated = sh(i.registeredAt), sh(i.readOnlyLastUpdated)
+	i.stateMtx.Unlock()
+	i.readyLock.Lock()
+	i.readySince = sh(i.readySince)
+	i.readyLock.Unlock()
+}
+
+// ---------------------------------------------------------------- BasicLifecycler
+
+// VerifRegisterInstance is the first step of starting().
+func (l *BasicLifecycler) VerifRegisterInstance(ctx context.Context) error { return l.registerInstance(ctx) }
+
+// VerifVerifyTokens is one observation of waitStableTokens().
+func (l *BasicLifecycler) VerifVerifyTokens(ctx context.Context) bool { return l.verifyTokens(ctx) }
+
+// VerifOnTokens transcribes the tail of starting() (glue): notify the delegate once tokens are stable.
+func (l *BasicLifecycler) VerifOnTokens() {
+	if tokens := l.GetTokens(); len(tokens) > 0 {
+		l.delegate.OnRingInstanceTokens(l, tokens)
+	}
+}
+
+// VerifHeartbeat is `case <-heartbeatTickerChan:`.
+func (l *BasicLifecycler) VerifHeartbeat(ctx context.Context) { l.heartbeat(ctx) }
+
+// VerifChangeState / VerifChangeReadOnlyState are the functions ChangeState/ChangeReadOnlyState run in the loop.
+func (l *BasicLifecycler) VerifChangeState(ctx context.Context, s InstanceState) error {
+	return l.changeState(ctx, s)
+}
+func (l *BasicLifecycler) VerifChangeReadOnlyState(ctx context.Context, ro bool) error {
+	return l.changeReadOnlyState(ctx, ro)
+}
+
+// VerifStoppingDelegate is what stopping() runs on its side goroutine.
+func (l *BasicLifecycler) VerifStoppingDelegate() { l.delegate.OnRingInstanceStopping(l) }
+
+// VerifUnregisterInstance is unregisterInstance as called from stopping().
+func (l *BasicLifecycler) VerifUnregisterInstance(ctx context.Context) error {
+	return l.unregisterInstance(ctx)
+}
+
+// VerifCurrent returns a copy of currInstanceDesc (nil when not registered).
+func (l *BasicLifecycler) VerifCurrent() *InstanceDesc {
+	l.currState.RLock()
+	defer l.currState.RUnlock()
+	if l.currInstanceDesc == nil {
+		return nil
+	}
+	c := *l.currInstanceDesc
+	c.Tokens = append([]uint32(nil), c.Tokens...)
+	return &c
+}
+
+// VerifShiftTime: see Lifecycler.VerifShiftTime. Zero timestamps (= unknown) stay zero.
+func (l *BasicLifecycler) VerifShiftTime(d time.Duration) {
+	l.currState.Lock()
+	defer l.currState.Unlock()
+	if l.currInstanceDesc == nil {
+		return
+	}
+	VerifShiftInstance(l.currInstanceDesc, d)
+}
+
+// VerifShiftInstance ages the three timestamps of a ring entry by d seconds (zero = unknown stays zero).
+func VerifShiftInstance(i *InstanceDesc, d time.Duration) {
+	s := int64(d / time.Second)
+	if i.Timestamp != 0 {
+		i.Timestamp -= s
+	}
+	if i.RegisteredTimestamp != 0 {
+		i.RegisteredTimestamp -= s
+	}
+	if i.ReadOnlyUpdatedTimestamp != 0 {
+		i.ReadOnlyUpdatedTimestamp -= s
+	}
+}
